@@ -1183,6 +1183,16 @@ func schedScenario(c schedCfg) *vrt.Scenario {
 		if len(ht) > 0 {
 			lastT = ht[len(ht)-1].String()
 		}
+		// developer aid only (not part of the verdict; the assumptions say why the order of the hand-overs is not judged):
+		// C11_PROBE_ADAPTER=1 reports executions in which the last value handed to the ParentAdapter is not the final root value
+		if os.Getenv("C11_PROBE_ADAPTER") != "" {
+			if len(hs) > 0 && hs[len(hs)-1] != rootS {
+				vrt.Fail("PROBE:adapter-last-state-differs-from-root", "threads [%s]: adapter got %v, root %s", hist(), hs, stName(rootS))
+			}
+			if len(ht) > 0 && ht[len(ht)-1] != t.root.role.GetStatus() {
+				vrt.Fail("PROBE:adapter-last-status-differs-from-root", "threads [%s]: adapter got %v, root %s", hist(), ht, t.root.role.GetStatus())
+			}
+		}
 		// observation (not an oracle): whether the last value handed up is the final root value
 		vrt.Logf("threads [%s] -> root %s/%s fold %s/%s adapter-last %s/%s agree=%v", hist(), stName(rootS), t.root.role.GetStatus(), stName(refState(t.root)), refStatus(t.root), last, lastT, ok)
 	}
